@@ -13,6 +13,7 @@ import (
 	"encoding/json"
 	"errors"
 	"fmt"
+	"io/fs"
 	"net/http"
 	"net/url"
 	"regexp"
@@ -50,6 +51,12 @@ var routePool = []route{
 var allNames = []string{"a", "b", "c", "d", "e", "x", "y", "unused"}
 
 type harnessPanic struct{ token string }
+
+// claimsAll is an error whose Is method answers true for every target.
+type claimsAll struct{ tok string }
+
+func (c claimsAll) Error() string { return "claims-" + c.tok }
+func (c claimsAll) Is(error) bool { return true }
 
 type nilErr struct{ x int }
 
@@ -437,8 +444,8 @@ func (s *logSink) Write(p []byte) (int, error) {
 
 type logRec struct {
 	level, tag, ip, method, path, tid, code, panicText string
-	raw                                             string
-	order                                           int
+	raw                                                string
+	order                                              int
 }
 
 var nanoHead = regexp.MustCompile(`(?m)^\d{4}-\d\d-\d\d \d\d:\d\d:\d\d \[([DIWEF])\] `)
@@ -556,6 +563,15 @@ func (w *world) panicValue(r *request) any {
 		return nil
 	case 6:
 		return nil // panic(nil): *runtime.PanicNilError since Go 1.21
+	case 8:
+		// wraps the sentinel without being it: net/http compares with ==, so
+		// this is an ordinary panic value
+		return fmt.Errorf("wrapped-%s: %w", r.token, http.ErrAbortHandler)
+	case 9:
+		var e *fs.PathError // typed nil of a standard error type with Unwrap
+		return error(e)
+	case 10:
+		return claimsAll{r.token}
 	default:
 		var e *nilErr
 		return error(e) // typed nil pointer whose type implements error
@@ -644,7 +660,7 @@ func (w *world) mainC15() {
 			b.body = ch("beh.body", 2) == 1
 			b.panicAt = []int{0, 0, 1, 2, 3}[ch("beh.panic", 5)]
 			if b.panicAt != 0 {
-				b.panicVal = ch("beh.panic_value", 8)
+				b.panicVal = ch("beh.panic_value", 11)
 			}
 			b.failBody = ch("beh.client_gone", 6) == 0
 			mine = append(mine, r)
@@ -740,7 +756,7 @@ func (w *world) mainC15() {
 		if b.panicAt != 0 {
 			if len(errs) != 1 {
 				w.violate("C15", "panic-record-count", fmt.Sprintf("request %d behaviour %+v: %d Error records with its ID", r.id, b, len(errs)))
-			} else if want := map[bool]string{true: strconv.Itoa(700000 + r.id), false: r.token}[b.panicVal == 2]; b.panicVal <= 4 && !strings.Contains(errs[0].panicText, want) {
+			} else if want := map[bool]string{true: strconv.Itoa(700000 + r.id), false: r.token}[b.panicVal == 2]; (b.panicVal <= 4 || b.panicVal == 8 || b.panicVal == 10) && !strings.Contains(errs[0].panicText, want) {
 				w.violate("C15", "panic-record-value", fmt.Sprintf("request %d behaviour %+v: Error record does not carry the panic value: %q", r.id, b, clip(errs[0].raw)))
 			}
 		} else if len(errs) != 0 {
